@@ -92,12 +92,19 @@ Lemma assoc_addr a : assoc_str "address" [("address", a)] = Some a.
 Proof. reflexivity. Qed.
 
 Definition dec_ok (m : msg) : Prop :=
-  exists o d, py_decode (msg_is_request m) (spec_pdu m) = Ok o /\ abs o = Some d /\ msg_matches m d = true.
+  exists o d, py_decode (msg_is_request m) (spec_pdu m) = Ok o /\ class_of o = spec_class m /\ abs o = Some d /\ msg_matches m d = true.
 
 (* close a goal [abs o = Some m /\ msg_matches m m = true] where abs_raw o computes to Some m *)
 Ltac close_abs Hwf :=
   split; [unfold abs; cbn [abs_raw]; rewrite ?at2_ac, ?at2_av, ?at3_mask, ?assoc_addr; cbv beta iota; rewrite Hwf; reflexivity
          |cbn [msg_matches]; rewrite ?Z.eqb_refl, ?zl_eqb_refl, ?bl_eqb_refl; unfold beqb; rewrite ?Bool.eqb_reflx; reflexivity].
+
+Ltac cls_goal :=
+  cbn [class_of spec_class];
+  try match goal with
+      | E : spec_response_subclass _ _ = _ |- _ => rewrite E
+      | E : spec_request_subclass _ _ = _ |- _ => rewrite E
+      end; reflexivity.
 
 Ltac fixed_dec Hwf :=
   let H := fresh "H" in
@@ -105,7 +112,7 @@ Ltac fixed_dec Hwf :=
   dec_open; unfold dec_fixed; tab; cbn [bind];
   rewrite ?unpack_HH, ?unpack_HHH, ?unpack_H by assumption; cbn [bind combine];
   unfold reclass; cbn [obj_sub class_of];
-  eexists; eexists; split; [reflexivity|close_abs Hwf].
+  eexists; eexists; split; [reflexivity|split; [cls_goal|]; close_abs Hwf].
 
 Lemma dec_ReadCoilsReq a q : spec_wf (MReadCoilsReq a q) = true -> dec_ok (MReadCoilsReq a q).
 Proof. intros Hwf. unfold dec_ok. fixed_dec Hwf. Qed.
@@ -138,7 +145,7 @@ Proof.
   rewrite unpack_BBB by (assumption || reflexivity). cbn [bind combine].
   unfold reclass. cbn [obj_sub class_of]. change (assoc_str "sub_function_code" _) with (Some 14). tab.
   cbv beta iota. match goal with |- context [lookup_sub ?t ?f ?s] => destruct (lookup_sub t f s) end; cbn [set_class];
-  (eexists; eexists; split; [reflexivity|]; split;
+  (eexists; eexists; split; [reflexivity|split; [cls_goal|]]; split;
   [ unfold abs; cbn [abs_raw]; change (assoc_str "sub_function_code" _) with (Some 14); cbv beta iota;
     change (14 =? 14) with true; cbv beta iota;
     change (at2 _ "read_code" "object_id" MReadDevIdReq) with (Some (MReadDevIdReq c o)); cbv beta iota; rewrite Hwf; reflexivity
@@ -161,31 +168,31 @@ Lemma dec_WriteCoilReq a on : spec_wf (MWriteCoilReq a on) = true -> dec_ok (MWr
 Proof.
   intros Hwf. unfold dec_ok. pose proof Hwf as H. cbn [spec_wf] in H.
   dec_open. unfold upk. rewrite dec_WriteCoil_gen by assumption. cbn [bind]. rewrite coil_word_on.
-  unfold reclass; cbn [obj_sub class_of]. eexists; eexists; split; [reflexivity|close_abs Hwf].
+  unfold reclass; cbn [obj_sub class_of]. eexists; eexists; split; [reflexivity|split; [cls_goal|]; close_abs Hwf].
 Qed.
 Lemma dec_WriteCoilRsp a on : spec_wf (MWriteCoilRsp a on) = true -> dec_ok (MWriteCoilRsp a on).
 Proof.
   intros Hwf. unfold dec_ok. pose proof Hwf as H. cbn [spec_wf] in H.
   dec_open. unfold upk. rewrite dec_WriteCoil_gen by assumption. cbn [bind]. rewrite coil_word_on.
-  unfold reclass; cbn [obj_sub class_of]. eexists; eexists; split; [reflexivity|close_abs Hwf].
+  unfold reclass; cbn [obj_sub class_of]. eexists; eexists; split; [reflexivity|split; [cls_goal|]; close_abs Hwf].
 Qed.
 
 Lemma dec_WriteRegReq a v : spec_wf (MWriteRegReq a v) = true -> dec_ok (MWriteRegReq a v).
 Proof.
   intros Hwf. unfold dec_ok. pose proof Hwf as H. cbn [spec_wf] in H. split_andb H.
   dec_open. unfold upk. rewrite unpack_HH by assumption. cbn [bind].
-  unfold reclass; cbn [obj_sub class_of]. eexists; eexists; split; [reflexivity|close_abs Hwf].
+  unfold reclass; cbn [obj_sub class_of]. eexists; eexists; split; [reflexivity|split; [cls_goal|]; close_abs Hwf].
 Qed.
 
 Lemma dec_empty_reqs :
   dec_ok MReadExcStatusReq /\ dec_ok MCommEventCounterReq /\ dec_ok MCommEventLogReq /\ dec_ok MReportSlaveIdReq.
-Proof. repeat split; unfold dec_ok; eexists; eexists; (split; [vm_compute; reflexivity|split; vm_compute; reflexivity]). Qed.
+Proof. repeat split; unfold dec_ok; eexists; eexists; (split; [vm_compute; reflexivity|split; [reflexivity|split; vm_compute; reflexivity]]). Qed.
 
 Lemma dec_ReadExcStatusRsp s : spec_wf (MReadExcStatusRsp s) = true -> dec_ok (MReadExcStatusRsp s).
 Proof.
   intros Hwf. unfold dec_ok. pose proof Hwf as H. cbn [spec_wf] in H. unfold is_u8 in H.
   dec_open. unfold u8. cbn [data0 bind]. rewrite Z2N.id by lia.
-  unfold reclass; cbn [obj_sub class_of]. eexists; eexists; split; [reflexivity|close_abs Hwf].
+  unfold reclass; cbn [obj_sub class_of]. eexists; eexists; split; [reflexivity|split; [cls_goal|]; close_abs Hwf].
 Qed.
 
 Lemma unpack_busy b c : is_u16 c = true ->
@@ -199,7 +206,7 @@ Lemma dec_CommEventCounterRsp b c : spec_wf (MCommEventCounterRsp b c) = true ->
 Proof.
   intros Hwf. unfold dec_ok. pose proof Hwf as H. cbn [spec_wf] in H.
   dec_open. unfold upk. rewrite unpack_busy by assumption. cbn [bind].
-  unfold reclass; cbn [obj_sub class_of]. eexists; eexists; split; [reflexivity|].
+  unfold reclass; cbn [obj_sub class_of]. eexists; eexists; split; [reflexivity|split; [cls_goal|]].
   split; [unfold abs; cbn [abs_raw]; destruct b; cbn [negb]; change (65535 =? status_ready) with false;
           change (0 =? status_ready) with true; cbn [negb]; rewrite Hwf; reflexivity
          |destruct b; cbn [msg_matches]; rewrite Z.eqb_refl; reflexivity].
@@ -210,7 +217,7 @@ Proof.
   intros Hwf. unfold dec_ok. pose proof Hwf as H. cbn [spec_wf] in H. split_andb H. unfold is_u8 in H0.
   unfold py_decode, msg_is_request, spec_pdu.
   rewrite exception_decode by lia. replace (fc + 128 - 128) with fc by lia. rewrite Z2N.id by lia.
-  eexists; eexists; split; [reflexivity|].
+  eexists; eexists; split; [reflexivity|split; [cls_goal|]].
   split; [unfold abs; cbn [abs_raw]; rewrite Z.eqb_refl, Hwf; reflexivity|cbn [msg_matches]; now rewrite !Z.eqb_refl].
 Qed.
 
@@ -233,7 +240,7 @@ Ltac regs_rsp Hwf rs :=
   rewrite ?range_len_2', ?range_len_2'' by apply len_nonneg;
   rewrite read_words_words by assumption; cbn [bind app];
   unfold reclass; cbn [obj_sub class_of];
-  eexists; eexists; split; [reflexivity|close_abs Hwf].
+  eexists; eexists; split; [reflexivity|split; [cls_goal|]; close_abs Hwf].
 
 Lemma dec_ReadHoldingRsp rs : spec_wf (MReadHoldingRsp rs) = true -> dec_ok (MReadHoldingRsp rs).
 Proof. intros Hwf. unfold dec_ok. regs_rsp Hwf rs. Qed.
@@ -254,7 +261,7 @@ Ltac bits_rsp Hwf cs :=
   pose proof Hwf as H; cbn [spec_wf] in H;
   dec_open; unfold u8; cbn [app data0 bind skipn]; rewrite py_unpack_spec;
   unfold reclass; cbn [obj_sub class_of];
-  eexists; eexists; split; [reflexivity|];
+  eexists; eexists; split; [reflexivity|split; [cls_goal|]];
   split; [unfold abs; cbn [abs_raw spec_wf]; rewrite padded_wf by exact H; reflexivity
          |cbn [msg_matches]; apply unpack_pack_upto_pad].
 
@@ -272,7 +279,7 @@ Proof.
   rewrite bslice_prefix by reflexivity. rewrite skipn_prefix by reflexivity.
   unfold upk. rewrite unpack_HHB by assumption. cbn [bind].
   rewrite py_unpack_spec. unfold len at 1. rewrite Nat2Z.id, firstn_unpack_pack.
-  unfold reclass; cbn [obj_sub class_of]. eexists; eexists; split; [reflexivity|close_abs Hwf].
+  unfold reclass; cbn [obj_sub class_of]. eexists; eexists; split; [reflexivity|split; [cls_goal|]; close_abs Hwf].
 Qed.
 
 Lemma u8_len_u16 {A} (l : list A) : is_u8 (2 * len l) = true -> is_u16 (len l) = true.
@@ -289,7 +296,7 @@ Proof.
   unfold upk. rewrite unpack_HHB by assumption. cbn [bind].
   replace (len rs * 2 + 5) with (5 + 2 * len rs) by lia. rewrite range_len_2 by apply len_nonneg.
   rewrite read_words_words by assumption. cbn [bind].
-  unfold reclass; cbn [obj_sub class_of]. eexists; eexists; split; [reflexivity|].
+  unfold reclass; cbn [obj_sub class_of]. eexists; eexists; split; [reflexivity|split; [cls_goal|]].
   split; [unfold abs; cbn [abs_raw]; change (zlen rs) with (len rs); rewrite !Z.eqb_refl; cbn [andb]; rewrite Hwf; reflexivity
          |cbn [msg_matches]; now rewrite Z.eqb_refl, zl_eqb_refl].
 Qed.
@@ -305,7 +312,7 @@ Proof.
   unfold upk. rewrite unpack_HHHHB by assumption. cbn [bind].
   replace (2 * len ws + 9) with (9 + 2 * len ws) by lia. rewrite range_len_2 by apply len_nonneg.
   rewrite read_words_words by assumption. cbn [bind].
-  unfold reclass; cbn [obj_sub class_of]. eexists; eexists; split; [reflexivity|].
+  unfold reclass; cbn [obj_sub class_of]. eexists; eexists; split; [reflexivity|split; [cls_goal|]].
   split; [unfold abs; cbn [abs_raw]; change (zlen ws) with (len ws); rewrite !Z.eqb_refl; cbn [andb]; rewrite Hwf; reflexivity
          |cbn [msg_matches]; now rewrite !Z.eqb_refl, zl_eqb_refl].
 Qed.
@@ -341,10 +348,10 @@ Proof.
   unfold reclass. cbn [obj_sub class_of]. tab. cbv beta iota. rewrite subdispatch_client.
   destruct (spec_response_subclass 8 sub) as [c'|] eqn:E; cbn [set_class].
   - destruct (resp_subclass_props sub c' E) as [Hf Hr].
-    eexists; eexists; split; [reflexivity|].
+    eexists; eexists; split; [reflexivity|split; [cls_goal|]].
     split; [unfold abs; cbn [abs_raw]; rewrite Hf, Hr; cbn [option_eqb]; change (8 =? 8) with true; cbv beta iota; rewrite Hwf; reflexivity
            |cbn [msg_matches]; now rewrite Z.eqb_refl, zl_eqb_refl].
-  - eexists; eexists; split; [reflexivity|].
+  - eexists; eexists; split; [reflexivity|split; [cls_goal|]].
     split; [unfold abs; cbn [abs_raw]; tab; cbn [option_eqb]; change (8 =? 8) with true; cbv beta iota; rewrite Hwf; reflexivity
            |cbn [msg_matches]; now rewrite Z.eqb_refl, zl_eqb_refl].
 Qed.
@@ -357,10 +364,10 @@ Proof.
   unfold reclass. cbn [obj_sub class_of]. tab. cbv beta iota. rewrite subdispatch_server.
   destruct (spec_request_subclass 8 sub) as [c'|] eqn:E; cbn [set_class].
   - destruct (req_subclass_props sub c' E) as [Hf Hr].
-    eexists; eexists; split; [reflexivity|].
+    eexists; eexists; split; [reflexivity|split; [cls_goal|]].
     split; [unfold abs; cbn [abs_raw]; rewrite Hf, Hr; cbn [option_eqb]; change (8 =? 8) with true; cbv beta iota; rewrite Hwf; reflexivity
            |cbn [msg_matches]; now rewrite Z.eqb_refl, zl_eqb_refl].
-  - eexists; eexists; split; [reflexivity|].
+  - eexists; eexists; split; [reflexivity|split; [cls_goal|]].
     split; [unfold abs; cbn [abs_raw]; tab; cbn [option_eqb]; change (8 =? 8) with true; cbv beta iota; rewrite Hwf; reflexivity
            |cbn [msg_matches]; now rewrite Z.eqb_refl, zl_eqb_refl].
 Qed.
@@ -386,7 +393,7 @@ Proof.
   rewrite H13, H35, H57, H7. unfold upk. rewrite unpack_busy1, !unpack_H by assumption. cbn [bind].
   replace (range_len 7 (6 + len evs + 1) 1) with (len evs) by (unfold range_len; pose proof (len_nonneg evs); destruct (6 + len evs + 1 <=? 7) eqn:E; lia).
   unfold len at 1. rewrite Nat2Z.id, take_idx_u8s by assumption. cbn [bind].
-  unfold reclass; cbn [obj_sub class_of]. eexists; eexists; split; [reflexivity|].
+  unfold reclass; cbn [obj_sub class_of]. eexists; eexists; split; [reflexivity|split; [cls_goal|]].
   split; [unfold abs; cbn [abs_raw]; destruct b; change (65535 =? status_ready) with false;
           change (0 =? status_ready) with true; cbn [negb]; rewrite Hwf; reflexivity
          |destruct b; cbn [msg_matches]; rewrite !Z.eqb_refl, zl_eqb_refl; reflexivity].
@@ -395,7 +402,7 @@ Qed.
 (* ---- C01_decode_conforms ---------------------------------------------------------------------- *)
 
 Theorem decode_conforms m : spec_wf m = true -> conforming_decode m = true ->
-  exists o d, py_decode (msg_is_request m) (spec_pdu m) = Ok o /\ abs o = Some d /\ msg_matches m d = true.
+  exists o d, py_decode (msg_is_request m) (spec_pdu m) = Ok o /\ class_of o = spec_class m /\ abs o = Some d /\ msg_matches m d = true.
 Proof.
   intros Hwf Hc. change (dec_ok m). destruct m; try discriminate Hc.
   - now apply dec_ReadCoilsReq.
